@@ -17,6 +17,9 @@ import (
 type Scenario struct {
 	Name string
 	New  func() (body func(), check func(x *vsched.Exec) (outcome string, viol map[string]string))
+	// Classify may re-key the violations of one execution (after panics and races have been added), e.g. to
+	// gather all symptoms of one known root cause under one key.
+	Classify func(x *vsched.Exec, viol map[string]string) map[string]string
 }
 
 type Violation struct {
@@ -33,6 +36,7 @@ type Stats struct {
 	Internal                string // replay divergence etc.
 	MaxPoints               int
 	Capped                  bool
+	Tick                    func() // called once per execution (liveness signal for the watchdog)
 }
 
 func NewStats() *Stats {
@@ -78,6 +82,12 @@ func RunOne(sc *Scenario, prefix []int, st *Stats) *vsched.Exec {
 			viol = map[string]string{}
 		}
 		viol["race/"+r.Label] = fmt.Sprintf("conflicting accesses not ordered by happens-before: %s || %s", r.A, r.B)
+	}
+	if sc.Classify != nil && len(viol) > 0 {
+		viol = sc.Classify(x, viol)
+	}
+	if st.Tick != nil {
+		st.Tick()
 	}
 	if len(viol) > 0 && len(st.Violations) < 40 {
 		// replay twice: observations must be identical
